@@ -1480,6 +1480,20 @@ pub fn c11(tier: &str) -> Vec<Family> {
             b.label = format!("after_norecipient/{}", s.label);
             sc_h.push(with_prelude(b, pre2.clone()));
         }
+        // A simulation without any model of its own (only a source whose target mailbox was
+        // dropped): nothing in it ever polls a model before the failure is attributed.
+        let g = NodeSpec::new("G", 1).placement(Placement::Dropped);
+        let mut lone = BenchSpec::new(vec![g]);
+        lone.srcs = vec![vec![to(0)]];
+        let lone = Arc::new(lone);
+        for (name, cmds) in [
+            ("proc", vec![Cmd::ProcSrc { src: 0, tag: 1, val: 0 }, Cmd::Step]),
+            ("sched", vec![Cmd::SchedSrc { src: 0, kind: SKind::Once, when: When::Rel(1), tag: 1, val: 0, slot: 0 }, Cmd::Step, Cmd::Step]),
+        ] {
+            sc_h.push(with_prelude(scn(format!("after_panic/no_models/{}", name), &lone, cmds.clone()), pre.clone()));
+            sc_h.push(with_prelude(scn(format!("after_norecipient/no_models/{}", name), &lone, cmds.clone()), pre2.clone()));
+            sc_h.push(scn(format!("fresh/no_models/{}", name), &lone, cmds));
+        }
         fams.push(Family::new("fault_sequences_history", TAGS_ERRORS, sc_h).cap(2_000));
     }
     // Clock lag above tolerance.
